@@ -19,7 +19,9 @@ LEAVES = ["str", "int", "num", "bool", "str:date-time", "str:date", "str:uuid", 
           "ref_obj_sibling_nullable",
           # rarely written but legal: an enum without a type, a one-value boolean enum, a 3.1 list of two types, an array
           # without items (any items: belongs to the keyword-less-schema class)
-          "enum_untyped", "bool_enum", "type_list_str_int", "array_no_items"]
+          "enum_untyped", "bool_enum", "type_list_str_int", "array_no_items",
+          # references to schemas whose declared NAME class-name derivation rewrites (acronym run, snake_case)
+          "ref_obj_rw", "ref_enum_rw", "ref_alias_rw"]
 WRAPPERS = ["array", "map", "nullable", "inline", "nullable31"]   # nullable31: the OpenAPI 3.1 spellings (type arrays / anyOf null)
 
 
@@ -91,6 +93,12 @@ def leaf_node(leaf: str) -> tuple[dict, dict]:
         return ref("Colour"), {"kind": "ref_enum", "target": "Colour"}
     if leaf == "ref_alias_dt":
         return ref("Timestamp"), {"kind": "ref_alias", "target": "Timestamp"}
+    if leaf == "ref_obj_rw":
+        return ref("HTTPLeaf"), {"kind": "ref", "target": "HTTPLeaf"}
+    if leaf == "ref_enum_rw":
+        return ref("colour_code"), {"kind": "ref_enum", "target": "colour_code"}
+    if leaf == "ref_alias_rw":
+        return ref("time_stamp"), {"kind": "ref_alias", "target": "time_stamp"}
     if leaf == "any":
         return {}, {"kind": "free_form", "variant": "any"}
     if leaf == "object_bare":
@@ -153,8 +161,15 @@ def document(shapes: list[tuple[int, tuple[str, ...]]]) -> Doc:
         "Other": {"type": "object", "properties": {"other_key": {"type": "integer"}}, "required": ["other_key"]},
         "Third": {"type": "object", "properties": {"third_key": {"type": "boolean"}}, "required": ["third_key"]},
         "Choice": {"oneOf": [ref("Leaf"), ref("Other")]},
+        "HTTPLeaf": {"type": "object", "properties": {"label": {"type": "string"}, "count": {"type": "integer"}}, "required": ["label"]},
+        "colour_code": {"type": "string", "enum": ["red", "dark-blue"]},
+        "time_stamp": {"type": "string", "format": "date-time"},
     }
     sexp: dict[str, Any] = {
+        "HTTPLeaf": {"kind": "object", "parents": [], "props": {"label": {"kind": "string", "format": None, "required": True},
+                                                                "count": {"kind": "integer", "format": None, "required": False}}},
+        "colour_code": {"kind": "enum", "values": ["red", "dark-blue"]},
+        "time_stamp": {"kind": "prim_alias", "prim": {"kind": "string", "format": "date-time"}},
         "Leaf": {"kind": "object", "parents": [], "props": {"label": {"kind": "string", "format": None, "required": True},
                                                             "count": {"kind": "integer", "format": None, "required": False}}},
         "Colour": {"kind": "enum", "values": ["red", "dark-blue"]},
